@@ -2,3 +2,5 @@ pub mod epoch;
 pub mod farm;
 pub mod farm_replay;
 pub mod pool;
+pub mod auth;
+pub mod fault;
